@@ -2,7 +2,7 @@
 
 TRUSTED_BASE = [
     "Lean 4.33.0 kernel (re-checked by leanchecker in the thorough tier); axioms allowed: propext, Classical.choice, Quot.sound; no native_decide, bv_decide, sorry, user axioms",
-    "the hand-written Lean model (lean/SMD/Model) is modelled, not verified: its tie to /repo is the correspondence harness (generators, VX1 printer in Go, VX1 parser/printer in Lean, canonicalisation of Go map order, the line diff)",
+    "the hand-written Lean model (lean/SMD/Model) is modelled, not verified: its tie to /repo is the correspondence harness (generators, VX1 printer in Go, VX1 parser/printer in Lean, canonicalisation of Go map order, the line diff); a side-by-side review of model and code (DESIGN.md section 8.4) found 14 differences outside the generated inputs: 12 corrected and now generated, 2 recorded as limits (a schema spelling `fields: []` for an untyped-deduced map; error-then-panic order of the walkers on unvalidated values with unresolvable references)",
     "factgen (harness/cmd/factgen) is trusted to report every range over a map-typed expression, every selector access to the listed shared fields with its guard context (incl. locks inherited by unexported helpers) and every CopyInto call site",
     "external code outside the model: Go runtime and memory model, sync, sort, reflect, encoding/json (modelled as jsonV for the C18 theorem), strconv (float32 shortest decimal), encoding/base64, jsoniter, goyaml",
     "readings R1-R13 of natural-language clauses recorded in DESIGN.md section 6",
@@ -151,6 +151,8 @@ OP_PROPS["hlp.mfdiff"] = ["C05"]
 OP_PROPS["hlp.cf"] = ["C04"]
 OP_PROPS["rfl.conv"] = ["C18"]
 OP_PROPS["rfl.json"] = ["C18"]
+OP_PROPS["rfl.set"] = ["C18"]
+OP_PROPS["rfl.del"] = ["C18"]
 OP_PROPS["upd.mode"] = ["C20"]
 OP_PROPS["upd.sync"] = ["C20"]
 OP_PROPS["upd.conv"] = ["C08", "C20"]
@@ -206,14 +208,15 @@ CLAUSES = {
             "partition law with whole list items in S (equality up to member order)": "judge; exhaustive over leaf subsets in typx"},
     "C15": {"all clauses": "theorems (refinement of every trie operation to set algebra on paths, invariant closure, iteration order, extensional equality)"},
     "C16": {"parse(emit s) = s; every parse well formed; unknown kinds skipped; repeated keys tolerated": "theorems (tree level, any lawful key codec)",
-            "the concrete codec is lawful down to JSON text (sorted keys); canonical form: equal sets with plainly spelled numbers serialise identically; D6 witness": "theorems",
+            "the concrete codec is lawful down to JSON text (sorted keys, numbers and indexes in the range of the Go types: PE.inGoDomain; refuted outside); whatever the text, maps inside a parsed element are canonical; the key sort is stable; canonical form: equal sets with plainly spelled numbers serialise identically; D6 witness": "theorems",
             "bytes of jsoniter, byte fuzz": "correspondence + judges; known finding D6"},
     "C17": {"all clauses for values, key lists, path elements, matchers, paths, sorted containers": "theorems",
             "schema equality is an equivalence and relates exactly the schemas identical up to the sign of zero defaults": "theorems (+ correspondence on re-parses and single-point edits incl. unions)"},
     "C18": {"Set/Delete change exactly that entry (abstract value)": "theorems",
-            "reflection = encoding/json round trip on the Go family (reflectV vs jsonV: both total, Equal results, same keys, sorted fields)": "theorems about the two models; both models tied to the real NewValueReflect and encoding/json by rfl.conv / rfl.json",
+            "Set/Delete on reflected Go data at any depth: a successful operation changes exactly that entry of the library's reading (everything outside the container unchanged), incl. the replacement copy of a struct held in a Go map; outcome ok / refused / panic characterised": "theorems about the model ReflectSet.lean (C18Set), tied to the real Map.Set / Map.Delete by rfl.set / rfl.del; judge through encoding/json alone; known findings D20, D21",
+            "reflection = encoding/json round trip on the Go family (reflectV vs jsonV: both total, Equal results, same keys, sorted fields)": "theorems about the two models (uint below 2^63: above it the code differs from encoding/json, known finding D23, refuted in the model); both models tied to the real NewValueReflect and encoding/json by rfl.conv / rfl.json",
             "equality/ordering/typed operations agree across representations; custom marshalers; JSON/YAML round trips": "correspondence + judges (external libraries)"},
-    "C19": {"filter algebra (exclude = recursive difference, include = compatible paths); actor never owns ignored paths; over all histories: records well formed, never an ignored path (exclusion), only kept paths (include pattern); ignored-only changes: no conflict, nothing taken": "theorems",
+    "C19": {"filter algebra (exclude = recursive difference, include = compatible paths); actor never owns ignored paths; over all histories: records well formed, and every record respects the configuration of its own version (any mix of exclusion sets, include patterns and versions without an entry: reachable_respects_version_filter); ignored-only changes: no conflict, nothing taken": "theorems",
             "ignored values flow": "judges; known finding D8 (kernel-checked witness)"},
     "C20": {"records at missing versions dropped without effect": "theorems",
             "granular -> atomic reconcile": "correspondence + judge (cut at outermost atomic prefix, idempotent); theorems when present in the audit (C20Reconcile)",
